@@ -19,6 +19,9 @@ func init() {
 }
 
 func runC04(c *Check) {
+	if r := c.gochannelRoles("C04"); r != nil {
+		c04HandsOff(c, "C04.O1", r)
+	}
 	r := c.gochannelRoles("C04")
 	if r == nil {
 		return
@@ -712,6 +715,73 @@ func c04NoMessageWrites(c *Check, id string, r *GCRoles) {
 // c04NoSharedWrites: the deliver function runs once per subscriber, concurrently,
 // on arguments shared between those goroutines (the message, the log fields):
 // it must not write through them.
+// c04HandsOff: once a copy was handed to the subscriber it belongs to the subscriber (which may edit it at once): after
+// the send the deliver function touches it only to wait for its settlement. And the Pub/Sub never settles a message
+// itself — neither a delivered copy nor the publisher's original.
+func c04HandsOff(c *Check, id string, r *GCRoles) {
+	D := r.Deliver
+	for i, s := range r.Sends {
+		if s.Case == nil || s.Case.Edge == nil {
+			continue
+		}
+		sent := s.Val
+		isSent := func(v ssa.Value) bool { return v == sent || sameValue(v, sent) }
+		// (until the next copy is made: in a resend loop the same variable then names a new object)
+		cut := NewCut()
+		if cp := r.copyOf(s.Val); cp != nil {
+			cut.AddInstrs(cp)
+		}
+		re := ReachEdge(*s.Case.Edge, cut)
+		ok := true
+		var wit []string
+		for _, f := range WithAnon(D) {
+			AllInstrs(f, func(in ssa.Instruction) {
+				if f == D && !re[in] {
+					return
+				}
+				switch x := in.(type) {
+				case *ssa.FieldAddr:
+					if isSent(x.X) {
+						ok = false
+						fld, _ := FieldOf(x)
+						name := "?"
+						if fld != nil {
+							name = fld.Name()
+						}
+						wit = append(wit, "field "+name+" of the sent copy is accessed at "+c.P.Pos(x.Pos()))
+					}
+				case ssa.CallInstruction:
+					if f != D {
+						return
+					}
+					cc := x.Common()
+					if cc.IsInvoke() || len(cc.Args) == 0 || !isSent(cc.Args[0]) {
+						return
+					}
+					switch CalleeName(x) {
+					case nAcked, nNacked:
+					default:
+						ok = false
+						wit = append(wit, CalleeName(x)+" is called on the sent copy at "+c.P.Pos(x.Pos()))
+					}
+				}
+			})
+		}
+		c.Report(ok, id, "HANDS-OFF-AFTER-SEND", D, s.Ins.Pos(), fmt.Sprintf("send#%d", i), "after the send the deliver function only waits for the copy's Acked()/Nacked(): it reads no field of it and calls nothing else on it (the subscriber owns it and may be editing it)", wit...)
+	}
+	n := 0
+	for _, fn := range r.Funcs {
+		for _, cl := range CallsIn(fn) {
+			switch CalleeName(cl) {
+			case nAck, nNack:
+				n++
+				c.Report(false, id, "PUBSUB-NEVER-SETTLES", fn, cl.Pos(), CalleeName(cl), "the Pub/Sub settles no message: Ack and Nack are the subscriber's (for a delivered copy) and the publisher's owner's (for the original)")
+			}
+		}
+	}
+	c.Report(true, id, "SETTLEMENTS-SCANNED", D, D.Pos(), "package gochannel", fmt.Sprintf("%d Ack/Nack calls in the package", n))
+}
+
 func c04NoSharedWrites(c *Check, id string, r *GCRoles) {
 	D := r.Deliver
 	n := 0
